@@ -26,7 +26,11 @@ SEMANTIC = ["SELECT a / 0 FROM t1", "SELECT a % 0 FROM t1", "SELECT c / (a - a) 
             "SELECT a FROM t1 t1a JOIN t1 t1b ON t1a.a = t1b.a", "INSERT INTO t1 (a, a) VALUES (1, 2)", "INSERT INTO t1 (nosuch) VALUES (1)", "SELECT * FROM t1, t2",
             "SELECT a FROM t1 WHERE (SELECT 1) = 1", "SELECT a FROM t1 WHERE EXISTS (SELECT x FROM t2)", "SELECT 1", "SELECT", "VACUUM", "ANALYZE", "BEGIN", "COMMIT", "ROLLBACK",
             "EXPLAIN SELECT a FROM t1", "SELECT 'unterminated FROM t1", "SELECT a FROM t1 WHERE b = 'it''s'", "SELECT \"a\" FROM t1", "SELECT a FROM t1 -- comment",
-            "SELECT a /* c */ FROM t1", "SELECT a FROM t1;", "SELECT a FROM t1; SELECT b FROM t1", "SELECT 1e400 FROM t1", "SELECT 0.1 + 0.2 FROM t1", "SELECT a FROM t1 WHERE b = '" + "z" * 70000 + "'"]
+            "SELECT a /* c */ FROM t1", "SELECT a FROM t1;", "SELECT a FROM t1; SELECT b FROM t1", "SELECT 1e400 FROM t1", "SELECT 0.1 + 0.2 FROM t1", "SELECT a FROM t1 WHERE b = '" + "z" * 70000 + "'",
+            # boundary values of clauses that skip or cut rows
+            "SELECT a FROM t1 LIMIT 3 OFFSET 50", "SELECT a FROM t1 LIMIT 0", "SELECT a FROM t1 LIMIT 1 OFFSET 3", "SELECT a FROM t1 ORDER BY a LIMIT 2 OFFSET 4",
+            "SELECT a FROM t1 LIMIT 2147483647 OFFSET 2147483647", "SELECT x FROM t2 WHERE x > 100 LIMIT 1 OFFSET 1",
+            "SELECT DISTINCT a FROM t1 LIMIT 5 OFFSET 5", "DELETE FROM t2 WHERE x > 100", "UPDATE t2 SET y = 1 WHERE x > 100"]
 
 
 def garbage(rng):
